@@ -412,6 +412,11 @@ class Taint:
         if b.kind in ('dict', 'list'):
             return join(b.v, AV(i.anyt(), why=i.reason()))
         it = i.anyt()
+        if it and not b.anyt() and isinstance(e.ctx, ast.Load) and b.kind not in ('dict', 'list', 'tuple', 'func') and not isinstance(e.slice, ast.Slice):
+            # a PUBLIC table read at positions given by private values: a value outside the table (a code not in the domain, an empty cell)
+            # raises, and whether it does is decided by the records themselves
+            self.sink(i, e, mod, 'private values index a public table (`%s`): an out-of-range or missing value raises, so whether the run '
+                      'continues is decided by the private records' % U(e)[:50])
         return AV(b.anyt() or it, b.st or it, frame=b.frame, why=b.reason() or i.reason())
 
     def comp(self, e, env, mod, elt):
